@@ -60,6 +60,17 @@ func titleJobs(tier string) []driver.Job {
 			}
 		}
 	}
+	// the same titles for a working directory whose ancestors hold nothing else (R/lone/x/wd):
+	// nothing but the working directory's own content may be removed either
+	for _, form := range []string{"rel", "abswd"} {
+		form := form
+		name := fmt.Sprintf("title/%s/wd=empty,lone/default/segments<=4", form)
+		out = append(out, driver.Job{Name: name, Run: func(c *driver.Ctx) {
+			sb := newSandboxAt("lone/x/wd")
+			defer sb.destroy()
+			runTitles(c, sb, form, "empty", "default", name)
+		}})
+	}
 	return out
 }
 
@@ -152,8 +163,8 @@ func runTitles(c *driver.Ctx, sb *sandbox, form, state, opt, scen string) {
 				} else if err == nil {
 					c.Count("title_inside_accepted", 1)
 				}
-				detail := fmt.Sprintf("title %q (%s form, %s), working directory <top>/1/2/3/wd pre-populated: %s, options: %s\nthe name points at %s\nPush returned: %v\nworking directory afterwards:\n%s",
-					shown, form, kind, state, opt, strings.ReplaceAll(dest, sb.top, "<top>"), err, sb.wdListing())
+				detail := fmt.Sprintf("title %q (%s form, %s), working directory %s pre-populated: %s, options: %s\nthe name points at %s\nPush returned: %v\nworking directory afterwards:\n%s",
+					shown, form, kind, strings.ReplaceAll(sb.wd, sb.top, "<top>"), state, opt, strings.ReplaceAll(dest, sb.top, "<top>"), err, sb.wdListing())
 				class := "a relative title"
 				if form != "rel" {
 					class = "an absolute title"
@@ -191,5 +202,5 @@ func changedSig(class string, lexicallyOutside bool) string {
 	if lexicallyOutside {
 		return "title: object outside the working directory changed by a push with " + class + " that points outside it"
 	}
-	return "title: " + class + " that lexically stays inside the working directory wrote outside it ('..' after a pre-existing internal symbolic link is not cleaned away)"
+	return "title: " + class + " that lexically stays inside the working directory changed something outside it"
 }
